@@ -18,3 +18,7 @@ def run(ctx, R):
     jit.rule_rcp(ctx, R, 'x86')
     jit.rule_lw_sib(ctx, R, 'x86', F)
     sshash.rule_rules(ctx, R, F)
+    jit.rule_rcp(ctx, R, 'a64')
+    jit.rule_rcp(ctx, R, 'rv64')
+    jit.rule_lw_sib(ctx, R, 'a64', F)
+    jit.rule_lw_sib(ctx, R, 'rv64', F)
